@@ -644,6 +644,19 @@ def run_case(case):
                     removed.append(rem)
                     alive.discard(rem)
                     any_removal = True
+                elif resolver == 'hardsphere' and a1 == b1 and a2 == b2 and b1[7] + b2[7] > 0 and not e.get('nan'):
+                    # the resolver left the pair untouched: legitimate only if, in the state it was handed, the pair is not (clearly) approaching
+                    # or not (clearly) overlapping any more - earlier bounces of the same step may have changed that
+                    gbv_ = e['gb']
+                    dx_ = [b1[k] + gbv_[k] - b2[k] for k in range(3)]
+                    dv_ = [b1[3 + k] + gbv_[3 + k] - b2[3 + k] for k in range(3)]
+                    dot_ = sum(dx_[k] * dv_[k] for k in range(3))
+                    nn_ = math.sqrt(sum(q * q for q in dx_) * sum(q * q for q in dv_))
+                    r2_ = sum(q * q for q in dx_)
+                    sr_ = b1[6] + b2[6]
+                    counters['hardsphere_callbacks_left_untouched'] = counters.get('hardsphere_callbacks_left_untouched', 0) + 1
+                    if dot_ < -1e-9 * nn_ and r2_ < sr_ * sr_ * (1 - 1e-9) and mode in ('direct', 'tree'):
+                        add('hardsphere:overlapping-approaching-pair-left-unresolved', '%s: pair (%r,%r) overlaps (|dx|=%r < %r) and approaches (dx.dv=%r) when handed to the hard-sphere resolver, which returned without changing it' % (desc, e['h1'], e['h2'], math.sqrt(r2_), sr_, dot_))
                 elif resolver == 'hardsphere' and (a1 != b1 or a2 != b2):
                     counters['bounces'] += 1
                     if b1[7] + b2[7] == 0:
